@@ -110,6 +110,8 @@ IDG = dict(name='GeneratePeopleDict+Consume', probe='k16', fam=['idn'], quick=40
            rule='commit lists whose names/e-mails share tokens, mixed case, empty fields')
 IDM = dict(name='MergeReversedDictsIdentities', probe='k18i', fam=['idn'], quick=15000, thorough=400000,
            nontrivial=nt_any, rule='pairs of identity lists, a third malformed (shared token inside one list)')
+CM = dict(name='CouplesAnalysis.MergeResults', probe='k18m', fam=['idn'], quick=6000, thorough=200000, nontrivial=nt_any,
+          rule='pairs of couples results over 6 file names and 2 identity pools (shared e-mails / names), unmatched-author rows, zero cells')
 DEV = dict(name='DevsAnalysis.MergeResults', probe='k18d', fam=['idn'], quick=8000, thorough=200000, nontrivial=nt_any,
            rule='pairs of devs results with overlapping identities, 4 tick sizes, begin times up to 11 days apart')
 GS = dict(name='groupSparseHistory', probe='k01g', fam=['gs'], quick=30000, thorough=600000, nontrivial=nt_any,
@@ -236,7 +238,7 @@ PROPS = {
     'C15': dict(corr=[TS]),
     'C16': dict(corr=[IDG, IDM, E16I, E16M]),
     'C17': dict(corr=[CD, CDC, E01]),
-    'C18': dict(corr=[DEV, IDM, K18C, E18]),
+    'C18': dict(corr=[DEV, IDM, CM, K18C, E18]),
     'C19': dict(corr=[TK, TKR, E19, PFORK]),
     'C20': dict(corr=[TD, BC, PFORK, E20N, E20P, E20R, E20L, E20S]),
 }
